@@ -209,6 +209,14 @@ func (s *state) Close(desc SegmentationDescriptor) ([]SegmentationDescriptor, er
 			s.open[len(s.open)-1] = nil
 			// Truncate slice
 			s.open = s.open[:len(s.open)-1]
+			// keep the position of a pending program breakaway in step
+			if s.inBlackout {
+				if i == s.blackoutIdx {
+					s.inBlackout = false
+				} else if i < s.blackoutIdx {
+					s.blackoutIdx--
+				}
+			}
 			closed = append(closed, d)
 			return closed, nil
 		}
